@@ -648,6 +648,7 @@ func rsMember(s rangeset[int64], v int64) bool {
 //@   ensures  len(*s) == old(len(*s)) - (j - i)
 //@   ensures  forall k int :: 0 <= k && k < i ==> (*s)[k] == old((*s)[k])
 //@   ensures  forall k int :: i <= k && k < len(*s) ==> (*s)[k] == old((*s)[k + (j - i)])
+//@   ensures  forall k int :: j <= k && k < old(len(*s)) ==> (*s)[k - (j - i)] == old((*s)[k])
 //@   modifies *s, elems(*s)
 //@
 //@ func (*rangeset[int64]).insertrange(s, i, start, end)
@@ -656,7 +657,31 @@ func rsMember(s rangeset[int64], v int64) bool {
 //@   ensures  len(*s) == old(len(*s)) + 1 && (*s)[i].start == start && (*s)[i].end == end
 //@   ensures  forall k int :: 0 <= k && k < i ==> (*s)[k] == old((*s)[k])
 //@   ensures  forall k int :: i < k && k < len(*s) ==> (*s)[k] == old((*s)[k-1])
+//@   ensures  forall k int :: i <= k && k < old(len(*s)) ==> (*s)[k+1] == old((*s)[k])
 //@   modifies *s, elems(*s)
+//@
+//@ func (*rangeset[int64]).sub(s, start, end)
+//@   allocates
+//@   requires s != nil && start <= end && len(*s) < 1<<40
+//@   requires forall j int, k int :: 0 <= j && j < k && k < len(*s) ==> (*s)[j].end < (*s)[k].start
+//@   requires forall k int :: 0 <= k && k < len(*s) ==> (*s)[k].start < (*s)[k].end
+//@   ensures  forall k int :: 0 <= k && k < len(*s) ==> (*s)[k].start < (*s)[k].end
+//@   ensures  forall j int, k int :: 0 <= j && j < k && k < len(*s) ==> (*s)[j].end < (*s)[k].start
+//@   modifies *s, elems(*s)
+//@   loop 1 invariant -1 <= rangeindex && rangeindex < len(*s) && unchanged(*s)
+//@   loop 1 invariant forall k int :: rangeindex < k && k < len(*s) ==> (*s)[k] == old((*s)[k])
+//@   loop 1 invariant forall k int :: 0 <= k && k <= rangeindex && old((*s)[k].end) < start ==> (*s)[k] == old((*s)[k])
+//@   loop 1 invariant forall k int :: 0 <= k && k <= rangeindex && old((*s)[k].end) >= start ==> old((*s)[k].start) <= end
+//@   loop 1 invariant forall k int :: 0 <= k && k <= rangeindex && old((*s)[k].end) >= start && start <= old((*s)[k].start) && end >= old((*s)[k].end) ==> (*s)[k] == old((*s)[k]) && removefrom <= k && k < removeto
+//@   loop 1 invariant forall k int :: 0 <= k && k <= rangeindex && old((*s)[k].end) >= start && start <= old((*s)[k].start) && end < old((*s)[k].end) ==> (*s)[k].start == end && (*s)[k].end == old((*s)[k].end)
+//@   loop 1 invariant forall k int :: 0 <= k && k <= rangeindex && old((*s)[k].end) >= start && start > old((*s)[k].start) && end >= old((*s)[k].end) ==> (*s)[k].start == old((*s)[k].start) && (*s)[k].end == start
+//@   loop 1 invariant forall k int :: 0 <= k && k <= rangeindex && old((*s)[k].end) >= start ==> !(start > old((*s)[k].start) && end < old((*s)[k].end))
+//@   loop 1 invariant (removefrom == -1 && removeto == -1) || (0 <= removefrom && removefrom < removeto && removeto <= rangeindex + 1)
+//@   loop 1 invariant forall k int :: removefrom != -1 && removefrom <= k && k < removeto ==> start <= old((*s)[k].start) && old((*s)[k].end) <= end
+//@   loop 1 invariant start < end
+//@   loop 1 invariant forall k int :: 0 <= k && k < len(*s) ==> (*s)[k].start < (*s)[k].end
+//@   loop 1 invariant forall j int, k int :: 0 <= j && j < k && k < len(*s) ==> (*s)[j].end < (*s)[k].start
+//@   loop 1 modifies elems(*s)
 //@
 //@ func (rangeset[int64]).min(s) (r)
 //@   ensures len(s) > 0 ==> r == s[0].start
@@ -693,7 +718,7 @@ func rsMember(s rangeset[int64], v int64) bool {
 
 //@ lemma
 //@ bounded 6
-//@ usebody insertrange, removeranges
+//@ usebody add, sub, insertrange, removeranges
 //@ requires start <= end
 //@ ensures wf0 ==> okWF
 //@ ensures wf0 ==> okMem
@@ -707,7 +732,7 @@ func lemmaRangesetAdd0(start, end, v int64) (wf0, okWF, okMem bool) {
 
 //@ lemma
 //@ bounded 6
-//@ usebody insertrange, removeranges
+//@ usebody add, sub, insertrange, removeranges
 //@ requires start <= end
 //@ ensures wf0 ==> okWF
 //@ ensures wf0 ==> okMem
@@ -721,7 +746,7 @@ func lemmaRangesetSub0(start, end, v int64) (wf0, okWF, okMem bool) {
 
 //@ lemma
 //@ bounded 6
-//@ usebody insertrange, removeranges
+//@ usebody add, sub, insertrange, removeranges
 //@ requires start <= end
 //@ ensures wf0 ==> okWF
 //@ ensures wf0 ==> okMem
@@ -735,7 +760,7 @@ func lemmaRangesetAdd1(a0, b0, start, end, v int64) (wf0, okWF, okMem bool) {
 
 //@ lemma
 //@ bounded 6
-//@ usebody insertrange, removeranges
+//@ usebody add, sub, insertrange, removeranges
 //@ requires start <= end
 //@ ensures wf0 ==> okWF
 //@ ensures wf0 ==> okMem
@@ -749,7 +774,7 @@ func lemmaRangesetSub1(a0, b0, start, end, v int64) (wf0, okWF, okMem bool) {
 
 //@ lemma
 //@ bounded 6
-//@ usebody insertrange, removeranges
+//@ usebody add, sub, insertrange, removeranges
 //@ requires start <= end
 //@ ensures wf0 ==> okWF
 //@ ensures wf0 ==> okMem
@@ -763,7 +788,7 @@ func lemmaRangesetAdd2(a0, b0, a1, b1, start, end, v int64) (wf0, okWF, okMem bo
 
 //@ lemma
 //@ bounded 6
-//@ usebody insertrange, removeranges
+//@ usebody add, sub, insertrange, removeranges
 //@ requires start <= end
 //@ ensures wf0 ==> okWF
 //@ ensures wf0 ==> okMem
